@@ -214,6 +214,60 @@ theorem scalarQ_length (w : World α) (ex : Option Nat) (ε : α) (b : Body ρ) 
       · rfl
       · simp
 
+/-! ### frame: queries with an explicit accountant leave all the others alone -/
+
+/-- `q` changes at most the accountant with index `i` and neither adds nor drops accountants -/
+def FrameAt (i : Nat) {σ : Type} (q : Query α σ) : Prop :=
+  ∀ w, (q w).accs.length = w.accs.length ∧ ∀ j, j ≠ i → (q w).accs[j]? = w.accs[j]?
+
+theorem scalarQ_frameAt (i : Nat) (ε : α) (b : Body ρ) : FrameAt i (scalarQ (some i) ε b) :=
+  fun w => ⟨scalarQ_length w _ ε b, fun j hj => scalarQ_frame w i ε b j hj⟩
+
+theorem runAll_frameAt (i : Nat) (qs : List (Query α ρ)) (h : ∀ q ∈ qs, FrameAt i q) : FrameAt i (runAll qs) := by
+  induction qs with
+  | nil => intro w; exact ⟨rfl, fun _ _ => rfl⟩
+  | cons q qs ih =>
+    intro w
+    have hq := h q (by simp) w
+    have hrest := ih (fun q' hq' => h q' (List.mem_cons_of_mem _ hq')) { w with accs := (q w).accs }
+    simp only [runAll]
+    split
+    · exact hq
+    · refine ⟨hrest.1.trans hq.1, fun j hj => ?_⟩
+      exact (hrest.2 j hj).trans (hq.2 j hj)
+
+theorem cellsQ_frameAt (i : Nat) (ε c : α) (n : Nat) (subs : List (Query α ρ)) (h : ∀ q ∈ subs, FrameAt i q) :
+    FrameAt i (cellsQ (some i) ε c n subs) := by
+  intro w
+  unfold cellsQ
+  split
+  · exact ⟨rfl, fun _ _ => rfl⟩
+  · split
+    · exact ⟨rfl, fun _ _ => rfl⟩
+    · exact runAll_frameAt i subs h w
+
+theorem wrapAxisQ_frameAt (i : Nat) (ε : α) (bodies : List (Body ρ)) : FrameAt i (wrapAxisQ (some i) ε bodies) := by
+  unfold wrapAxisQ
+  apply cellsQ_frameAt
+  intro q hq
+  obtain ⟨b, _, rfl⟩ := List.mem_map.mp hq
+  exact scalarQ_frameAt i _ b
+
+/-- a sub-query that respects the frame of the accountant it is handed, run on a throw-away accountant, changes
+none of the caller's accountants -/
+theorem withThrowAway_frame {σ : Type} (fresh : Acc α) (sub : Option Nat → Query α σ)
+    (h : ∀ k, FrameAt k (sub (some k))) (w : World α) : (withThrowAway fresh sub w).accs = w.accs := by
+  unfold withThrowAway
+  simp only
+  have hf := h w.accs.length { w with accs := w.accs ++ [fresh] }
+  apply List.ext_getElem?
+  intro j
+  by_cases hj : j < w.accs.length
+  · rw [List.getElem?_take_of_lt hj, hf.2 j (Nat.ne_of_lt hj)]
+    simp [List.getElem?_append_left hj]
+  · have hj' : w.accs.length ≤ j := Nat.le_of_not_lt hj
+    rw [List.getElem?_eq_none (by simp [hf.1]; omega), List.getElem?_eq_none hj']
+
 end generic
 
 /-! ## Part 2 — ℝ: fitting histories are closed under dropping the last spend -/
